@@ -69,9 +69,21 @@ func (w *recWriter) Write(p []byte) (int, error) {
 		return 0, errWrite
 	case "short":
 		return len(p) / 2, nil
+	case "temp":
+		// the first call takes part of the bytes and then reports a temporary error (a net.Error would);
+		// later calls succeed. Whatever a sink does about it, a prefix followed by the whole is not "exactly the bytes"
+		if w.n == 1 {
+			return len(p) / 2, tempErr{}
+		}
 	}
 	return len(p), nil
 }
+
+type tempErr struct{}
+
+func (tempErr) Error() string   { return "harness: temporary write error" }
+func (tempErr) Temporary() bool { return true }
+func (tempErr) Timeout() bool   { return false }
 
 var formats = []string{"json", "f1", "f2"}
 
@@ -113,7 +125,7 @@ func tableCases() []string {
 	var out []string
 	for mask := 0; mask < 8; mask++ {
 		for _, cfgFmt := range []string{"", "json", "f1", "f2"} {
-			for _, script := range []string{"ok", "err", "short"} {
+			for _, script := range []string{"ok", "err", "short", "temp"} {
 				out = append(out, fmt.Sprintf("writer mask=%d fmt=%q script=%s", mask, cfgFmt, script))
 			}
 			for _, path := range []string{"file", "/dev/null", "/dev/stdout", "/dev/stderr", "devfull"} {
@@ -182,6 +194,21 @@ func runTable(name string, scratch string) string {
 		out, err := s.Process(context.Background(), e)
 		n, writes, _ := w.snapshot()
 		wantOK := has && script == "ok"
+		if script == "temp" && has {
+			// the sink may report the error, or retry - but then the writer must have received, in total, exactly
+			// the bytes once: a retry that starts over after a partial write has written a prefix twice
+			if err == nil {
+				// what the writer holds: the accepted half of the first call, then everything it was given later
+				held := append([]byte(nil), writes[0][:len(writes[0])/2]...)
+				for _, wr := range writes[1:] {
+					held = append(held, wr...)
+				}
+				if !bytes.Equal(held, content(eff)) {
+					return fmt.Sprintf("writer.Sink reported success after a partial write that ended in a temporary error, but the writer now holds %q, not exactly %q", held, content(eff))
+				}
+			}
+			return untouched(e)
+		}
 		if (err == nil) != wantOK {
 			return fmt.Sprintf("writer.Sink: err=%v, want success=%v (format %q present=%v, writer %s)", err, wantOK, eff, has, script)
 		}
